@@ -14,7 +14,10 @@ Lo(c) == IF c.start < c.stop THEN c.start ELSE c.stop
 Hi(c) == IF c.start < c.stop THEN c.stop ELSE c.start
 FramesCover(fr, c) == Len(fr) > 0 /\ fr[1] <= Lo(c) /\ fr[Len(fr)] >= Hi(c)
 ClockGiven(d) == d.has.start /\ d.has.stop /\ d.has.dt
-SubgridLegal(s) == ~s.given \/ (1 <= s.i0 /\ s.i0 < s.i1 /\ s.i1 <= s.imax - 1 /\ 1 <= s.j0 /\ s.j0 < s.j1 /\ s.j1 <= s.jmax - 1)
+\* negative limits count from the upper end of the grid
+FromEnd(v, n) == IF v < 0 THEN n + v ELSE v
+SubgridLegal(s) == ~s.given \/ LET i0 == FromEnd(s.i0, s.imax)  i1 == FromEnd(s.i1, s.imax)  j0 == FromEnd(s.j0, s.jmax)  j1 == FromEnd(s.j1, s.jmax)
+                               IN 1 <= i0 /\ i0 < i1 /\ i1 <= s.imax - 1 /\ 1 <= j0 /\ j0 < j1 /\ j1 <= s.jmax - 1
 FilesPresent(d) == d.files.config /\ d.files.grid /\ d.files.forcing /\ d.files.release /\ d.files.warm
 SectionsPresent(d) == d.sections.time /\ d.sections.forcing /\ d.sections.tracker /\ d.sections.release /\ d.sections.output
 Valid(d) ==
